@@ -5,7 +5,7 @@
 (* view_at / view_mut_at at arbitrary prefixes: stored, branching, virtual,*)
 (* absent), and map equality.                                              *)
 (***************************************************************************)
-EXTENDS Events, SetOps
+EXTENDS Events
 
 PairObservers == {"Union", "Inter", "Diff", "CovDiff", "UnionMut", "InterMut", "DiffMut", "CovDiffMut", "Eq"}
 
